@@ -60,22 +60,60 @@ def load_json_data(filename, username="master"):
     with open(user_file(filename, username), encoding='utf-8') as f:
         return json.load(f)
 
+def read_metadata(filename, username="master"):
+    """Read the metadata (imports and description) of a theory file."""
+    timestamp = os.path.getmtime(user_file(filename, username))
+    data = load_json_data(filename, username)
+    return {
+        'imports': data['imports'],
+        'description': data['description'],
+        'meta_timestamp': timestamp
+    }
+
 def load_metadata(username="master"):
     """For the given user, load metadata for all theory files."""
-    theory_cache[username] = dict()
-    item_index[username] = dict()
+    cache = dict()
     for f in os.listdir(user_dir(username)):
         if f.endswith('.json'):
             filename = f[:-5]
-            data = load_json_data(filename, username)
-            timestamp = os.path.getmtime(user_file(filename, username))
-            theory_cache[username][filename] = {
-                'imports': data['imports'],
-                'description': data['description']
-            }
+            cache[filename] = read_metadata(filename, username)
+
+    # Install the cache only after all files are read, so that an error
+    # while reading does not leave a partial cache behind.
+    theory_cache[username] = cache
+    item_index[username] = dict()
 
     # Immediately check for topological order.
-    check_topological_sort()
+    try:
+        check_topological_sort(username)
+    except TheoryException:
+        del theory_cache[username]
+        del item_index[username]
+        raise
+
+def refresh_metadata(username="master"):
+    """Re-read the metadata of theory files that are new or have changed
+    since their metadata was read.
+
+    """
+    cache = theory_cache[username]
+    updates = dict()
+    for f in os.listdir(user_dir(username)):
+        if f.endswith('.json'):
+            filename = f[:-5]
+            timestamp = os.path.getmtime(user_file(filename, username))
+            if filename not in cache or cache[filename].get('meta_timestamp') != timestamp:
+                updates[filename] = read_metadata(filename, username)
+
+    if updates:
+        for filename, metadata in updates.items():
+            cache.setdefault(filename, dict()).update(metadata)
+        try:
+            check_topological_sort(username)
+        except TheoryException:
+            del theory_cache[username]
+            item_index.pop(username, None)
+            raise
 
 def check_topological_sort(username="master"):
     """For the given user, check the import relations have no cycles."""
@@ -140,12 +178,37 @@ def load_theory_cache(filename, username="master"):
     """
     if username not in theory_cache:
         load_metadata(username)
+    else:
+        refresh_metadata(username)
 
+    return update_theory_cache(filename, username)
+
+def update_theory_cache(filename, username="master", done=None):
+    """Bring the cached content of the given theory (and of the theories
+    it imports) up to date. Assumes metadata is up to date.
+
+    done is the set of theories already brought up to date during the
+    current call of load_theory_cache.
+
+    """
+    if done is None:
+        done = set()
     cache = theory_cache[username][filename]
+    if filename in done:
+        return cache
     timestamp = os.path.getmtime(user_file(filename, username))
 
-    if 'timestamp' in cache and timestamp == cache['timestamp']:
+    # Bring all imported theories up to date first. The content of this
+    # theory was parsed in the context of its imports, so it is valid only
+    # as long as none of them was parsed again.
+    depend_list = get_import_order(cache['imports'], username)
+    prev_caches = [update_theory_cache(prev_name, username, done) for prev_name in depend_list]
+    depends = tuple((prev_name, prev_cache['version'])
+                    for prev_name, prev_cache in zip(depend_list, prev_caches))
+
+    if 'timestamp' in cache and timestamp == cache['timestamp'] and depends == cache['depends']:
         # No need to update cache
+        done.add(filename)
         return cache
 
     # Load all required macros and methods for this file.
@@ -159,23 +222,18 @@ def load_theory_cache(filename, username="master"):
     if filename == 'hoare':
         from imperative import imp
 
-    # Load all imported theories
-    depend_list = get_import_order(cache['imports'], username)
-
     with theory.fresh_theory():
-        for prev_name in depend_list:
-            prev_cache = load_theory_cache(prev_name, username)
+        for prev_cache in prev_caches:
             for item in prev_cache['content']:
                 if item.error is None:
                     theory.thy.unchecked_extend(item.get_extension())
 
         # Use this theory to parse the content of current theory
-        cache['timestamp'] = timestamp
         data = load_json_data(filename, username)
-        cache['content'] = []
+        content = []
         for index, item in enumerate(data['content']):
             item = items.parse_item(item)
-            cache['content'].append(item)
+            content.append(item)
             if item.error is None:
                 exts = item.get_extension()
                 theory.thy.unchecked_extend(exts)
@@ -185,6 +243,14 @@ def load_theory_cache(filename, username="master"):
                     else:
                         name = ext.name
                     item_index[username][(ext.ty, name)] = (filename, timestamp, index)
+
+    # Record the result only when parsing is complete, so that an error
+    # above does not leave a partial content marked as up to date.
+    cache['content'] = content
+    cache['timestamp'] = timestamp
+    cache['depends'] = depends
+    cache['version'] = cache.get('version', 0) + 1
+    done.add(filename)
 
     return cache
 
@@ -210,16 +276,14 @@ def load_theory(filename: str, *, limit=None, username="master"):
     that should not be loaded.
     
     """
-    load_theory_cache(filename, username)
-    
-    cache = theory_cache[username][filename]
+    cache = load_theory_cache(filename, username)
 
-    # Load imported theories
+    # Load imported theories (brought up to date by load_theory_cache)
     depend_list = get_import_order(cache['imports'], username)
 
     theory.thy = theory.EmptyTheory()
     for prev_name in depend_list:
-        prev_cache = load_theory_cache(prev_name, username)
+        prev_cache = theory_cache[username][prev_name]
         for item in prev_cache['content']:
             if item.error is None:
                 theory.thy.unchecked_extend(item.get_extension())
